@@ -3,21 +3,52 @@
 #ifndef TETL_CMATH_TGAMMA_HPP
 #define TETL_CMATH_TGAMMA_HPP
 
+#include <etl/_config/all.hpp>
+
 #include <etl/_3rd_party/gcem/gcem.hpp>
 #include <etl/_concepts/integral.hpp>
+#include <etl/_type_traits/is_constant_evaluated.hpp>
+#include <etl/_type_traits/is_same.hpp>
 
 namespace etl {
+
+namespace detail {
+
+template <typename T>
+[[nodiscard]] constexpr auto tgamma(T arg) noexcept -> T
+{
+    if (not is_constant_evaluated()) {
+        if constexpr (is_same_v<T, float>) {
+#if __has_builtin(__builtin_tgammaf)
+            return __builtin_tgammaf(arg);
+#endif
+        }
+        if constexpr (is_same_v<T, double>) {
+#if __has_builtin(__builtin_tgamma)
+            return __builtin_tgamma(arg);
+#endif
+        }
+        if constexpr (is_same_v<T, long double>) {
+#if __has_builtin(__builtin_tgammal)
+            return __builtin_tgammal(arg);
+#endif
+        }
+    }
+    return detail::gcem::tgamma(arg);
+}
+
+} // namespace detail
 
 /// \ingroup cmath
 /// @{
 
 /// Computes the gamma function of arg.
 /// \details https://en.cppreference.com/w/cpp/numeric/math/tgamma
-[[nodiscard]] constexpr auto tgamma(float arg) noexcept -> float { return etl::detail::gcem::tgamma(arg); }
-[[nodiscard]] constexpr auto tgammaf(float arg) noexcept -> float { return etl::detail::gcem::tgamma(arg); }
-[[nodiscard]] constexpr auto tgamma(double arg) noexcept -> double { return etl::detail::gcem::tgamma(arg); }
-[[nodiscard]] constexpr auto tgamma(long double arg) noexcept -> long double { return etl::detail::gcem::tgamma(arg); }
-[[nodiscard]] constexpr auto tgammal(long double arg) noexcept -> long double { return etl::detail::gcem::tgamma(arg); }
+[[nodiscard]] constexpr auto tgamma(float arg) noexcept -> float { return etl::detail::tgamma(arg); }
+[[nodiscard]] constexpr auto tgammaf(float arg) noexcept -> float { return etl::detail::tgamma(arg); }
+[[nodiscard]] constexpr auto tgamma(double arg) noexcept -> double { return etl::detail::tgamma(arg); }
+[[nodiscard]] constexpr auto tgamma(long double arg) noexcept -> long double { return etl::detail::tgamma(arg); }
+[[nodiscard]] constexpr auto tgammal(long double arg) noexcept -> long double { return etl::detail::tgamma(arg); }
 [[nodiscard]] constexpr auto tgamma(integral auto arg) noexcept -> double { return etl::tgamma(double(arg)); }
 
 /// @}
